@@ -265,6 +265,25 @@ func solve(query string, timeoutMs int, mode string) (SolverResult, []SolverResu
 	return best, all
 }
 
+// solveRace runs every solver side by side and returns as soon as one gives a definitive
+// answer (unsat / sat); the others are abandoned.
+func solveRace(query string, timeoutMs int) (SolverResult, []SolverResult) {
+	ch := make(chan SolverResult, len(solvers))
+	for _, sp := range solvers {
+		sp := sp
+		go func() { ch <- runSolver(sp, query, timeoutMs, false) }()
+	}
+	var all []SolverResult
+	for range solvers {
+		r := <-ch
+		all = append(all, r)
+		if r.Verdict == "unsat" || r.Verdict == "sat" {
+			return r, all
+		}
+	}
+	return all[0], all
+}
+
 func getModel(query string, timeoutMs int) string {
 	r := runSolver(solvers[0], query, timeoutMs, true)
 	if r.Verdict == "sat" {
